@@ -75,7 +75,7 @@ func (f *FM) setInt(d int, v *big.Int) {
 }
 
 var fieldClasses = []string{"zero", "one", "two", "minus_one", "minus_two", "half_up", "half_down", "limb_pattern", "near_p",
-	"small", "square", "nonsquare", "random", "random"}
+	"small", "square", "nonsquare", "random", "random", "mont_window", "mont_window"}
 
 func (f *FM) fieldOf(class string) *big.Int {
 	switch class {
@@ -106,6 +106,9 @@ func (f *FM) fieldOf(class string) *big.Int {
 		return new(big.Int).Sub(bigP, big.NewInt(int64(1+f.rng.Intn(1200))))
 	case "small":
 		return big.NewInt(int64(f.rng.Intn(1 << 16)))
+	case "mont_window": // the stored (Montgomery) limbs lie in a boundary window: next to 0, 2^255, p/2, p, word boundaries
+		w, _ := f.window()
+		return mulmod(new(big.Int).Mod(w, bigP), rInvP, bigP)
 	case "square":
 		v := f.randBig(bigP)
 		return v.Mul(v, v).Mod(v, bigP)
